@@ -680,6 +680,10 @@ func ruleTypestate(c *Ctx) {
 				fn, i := src.fn, src.at
 				mi := struct{ X ssa.Value }{src.v}
 				key := fmt.Sprintf("%s: root slot receives %s", fname(fn), roleOf(mi.X))
+				if isNilConst(mi.X) {
+					l.add("R-TYPESTATE", "v5", fmt.Sprintf("%s: root slot receives the nil container", fname(fn)), b.posOf(i), Violated, "a nil container interface is handed out as a root together with a nil error: every method call on the root (findObject's get, the accessor for the whole document) is then a call on a nil interface and panics; a null document is held as the nil *array*, whose methods test for it", true)
+					continue
+				}
 				a.rootObjectDecoded(l, fn, mi.X, i)
 				switch {
 				case isPtrToNamed(mi.X.Type(), "partialDoc"):
